@@ -84,19 +84,28 @@ func Tokens(doc []byte) (toks []Tok, more bool) {
 // Oracles are the results of the library functions the Coq model leaves
 // uninterpreted, for every literal of a document on which they succeed.
 type Oracles struct {
-	Float   map[string][2]uint64 // literal -> Float64bits(v), Float32bits(float32(v))
-	Time    map[string][2]int64  // literal -> Unix seconds, nanosecond
-	Decimal map[string]DecRes    // literal -> canonical String() and exponent
+	Float   map[string][2]*uint64 // literal -> Float64bits(ParseFloat(s,64)), Float32bits(ParseFloat(s,32)); nil where ParseFloat fails
+	Time    map[string][2]int64   // literal -> Unix seconds, nanosecond
+	Decimal map[string]DecRes     // literal -> canonical String() and exponent
 }
 
 func NewOracles() *Oracles {
-	return &Oracles{Float: map[string][2]uint64{}, Time: map[string][2]int64{}, Decimal: map[string]DecRes{}}
+	return &Oracles{Float: map[string][2]*uint64{}, Time: map[string][2]int64{}, Decimal: map[string]DecRes{}}
 }
 
 // Add records what strconv.ParseFloat / time.Parse / decimal.NewFromString say about s.
 func (o *Oracles) Add(s string, isString bool) {
+	var fr [2]*uint64
 	if f, err := strconv.ParseFloat(s, 64); err == nil {
-		o.Float[s] = [2]uint64{math.Float64bits(f), uint64(math.Float32bits(float32(f)))}
+		b := math.Float64bits(f)
+		fr[0] = &b
+	}
+	if f, err := strconv.ParseFloat(s, 32); err == nil {
+		b := uint64(math.Float32bits(float32(f)))
+		fr[1] = &b
+	}
+	if fr[0] != nil || fr[1] != nil {
+		o.Float[s] = fr
 	}
 	if d, err := safeDecimal(s); err == nil {
 		o.Decimal[s] = d
@@ -157,7 +166,13 @@ func sortedKeys[V any](m map[string]V) []string {
 func (o *Oracles) Coq() (string, string, string) {
 	var f, t, d []string
 	for _, k := range sortedKeys(o.Float) {
-		f = append(f, fmt.Sprintf("(%s, (%d, %d))", BytesTerm(k), o.Float[k][0], o.Float[k][1]))
+		opt := func(p *uint64) string {
+			if p == nil {
+				return "None"
+			}
+			return fmt.Sprintf("Some %d", *p)
+		}
+		f = append(f, fmt.Sprintf("(%s, (%s, %s))", BytesTerm(k), opt(o.Float[k][0]), opt(o.Float[k][1])))
 	}
 	for _, k := range sortedKeys(o.Time) {
 		t = append(t, fmt.Sprintf("(%s, ((%d)%%Z, (%d)%%Z))", BytesTerm(k), o.Time[k][0], o.Time[k][1]))
